@@ -1,13 +1,14 @@
 (* Evaluation entry points for C14 cases. *)
 From stdpp Require Import strings gmap sets.
 From Coq Require Import Ascii.
-From CG Require Export Base.Cases Base.Oracle Model.FastVerilog Model.FastVerilogText Proofs.FastVerilogProofs.
+From CG Require Export Base.Cases Base.Oracle Model.FastVerilog Model.FastVerilogText Model.FastVerilogInst Proofs.FastVerilogProofs.
 Open Scope string_scope.
 
 Inductive case :=
 | CParse (a : ast) (bbs : list bbdef) (fast full : res Circuit)   (* one text read both ways; a = the AST it was rendered from *)
 | CSupport (label : string) (ok : bool)
-| CSplit (codes : list nat) (pieces : list (list nat)).           (* Python's [n.strip() for n in s.split(",")] on a string given by its character codes *)                          (* Python-side comparison of a large bundled netlist (support only) *)
+| CSplit (codes : list nat) (pieces : list (list nat))
+| CInst (codes : list nat) (groups : option (list nat * list nat * list nat)).   (* re.match of the instance pattern at the start of a string *)           (* Python's [n.strip() for n in s.split(",")] on a string given by its character codes *)                          (* Python-side comparison of a large bundled netlist (support only) *)
 
 (* short constructors for the generated files *)
 Notation N := ONet (only parsing).
@@ -20,6 +21,7 @@ Definition agree (k : case) : bool :=
   | CParse a bbs f l => bool_decide (fast_sem a bbs = f) && bool_decide (full_sem a bbs = l)
   | CSupport _ _ => true
   | CSplit codes pieces => bool_decide (fast_split (str_of codes) = str_of <$> pieces)
+  | CInst codes groups => bool_decide (scan_inst (str_of codes) = (λ x : list nat * list nat * list nat, (str_of x.1.1, str_of x.1.2, str_of x.2)) <$> groups)
   end.
 
 (* pin nets of every registered instance, constant drivers by their canonical name *)
@@ -47,4 +49,5 @@ Definition holds (k : case) : bool :=
       else true                       (* outside the documented subset the property is silent *)
   | CSupport _ ok => ok
   | CSplit _ _ => true
+  | CInst _ _ => true
   end.
